@@ -28,6 +28,17 @@ func refBlind(pub, blind, ctx []byte) ([]byte, bool) {
 	return ref.EdEncode(ref.EdScalarMult(r, p)), true
 }
 
+// notAPoint: a 32-byte string that does not decode to a curve point (checked against the math/big model at init).
+var notAPoint = func() []byte {
+	for y := byte(2); ; y++ {
+		b := make([]byte, 32)
+		b[0] = y
+		if _, ok := ref.EdDecode(b); !ok {
+			return b
+		}
+	}
+}()
+
 func drawCtx(t *rapid.T, label string) []byte {
 	switch gen.Uniform(t, 6, label+"/kind") {
 	case 0:
@@ -57,11 +68,37 @@ func TestBlinding(t *testing.T) {
 		priv := pated.NewKeyFromSeed(seed)
 		pub := priv.Public().(pated.PublicKey)
 		fail := func(sig, f string, a ...any) { rt.Fail(t, "C15/"+sig, f, a...) }
+		// In half the cases the sequence starts with calls that FAIL (a public key that is not a curve point): an
+		// error path must not leave anything behind that changes the following, valid calls.
+		if rapid.Bool().Draw(t, "failingCallsFirst") {
+			if _, err := pated.BlindPublicKeyWithContext(pated.PublicKey(notAPoint), append([]byte{}, b2...), ctx); err == nil {
+				fail("bad-key-accepted", "BlindPublicKeyWithContext accepted a public key that is not a curve point")
+				return
+			}
+			if rapid.Bool().Draw(t, "alsoUnblind") {
+				if _, err := pated.UnblindPublicKeyWithContext(pated.PublicKey(notAPoint), append([]byte{}, b1...), ctx); err == nil {
+					fail("bad-key-accepted", "UnblindPublicKeyWithContext accepted a public key that is not a curve point")
+					return
+				}
+			}
+			s.Class("after-failing-call")
+		}
 
 		bp, err := pated.BlindPublicKeyWithContext(pub, append([]byte{}, b1...), ctx)
 		if err != nil {
 			fail("blind-error", "BlindPublicKeyWithContext: %v", err)
 			return
+		}
+		if len(ctx) > 0 {
+			// blind and context cut from ONE record (blind = rec[:32] with the context in its spare capacity): same values, same result
+			rec := append(append([]byte{}, b1...), ctx...)
+			bpAdj, err := pated.BlindPublicKeyWithContext(pub, rec[:32], rec[32:])
+			sigAdj := pated.BlindKeySignWithContext(priv, msg, rec[:32], rec[32:])
+			upAdj, err2 := pated.UnblindPublicKeyWithContext(bp, rec[:32], rec[32:])
+			if err != nil || err2 != nil || !bytes.Equal(bpAdj, bp) || !bytes.Equal(upAdj, pub) || !stded.Verify(stded.PublicKey(bp), msg, sigAdj) || !bytes.Equal(rec[32:], ctx) {
+				fail("adjacent-arguments", "blind and context taken from one buffer (context in the blind's spare capacity) give a different result than separate copies of the same bytes, or the context was modified")
+				return
+			}
 		}
 		want, ok := refBlind(pub, b1, ctx)
 		if !ok || !bytes.Equal(bp, want) {
